@@ -1,7 +1,7 @@
 (* C12 correspondence cases: what the harness observed on the real code, and the function `ok`
    that re-runs the models on the same inputs and compares.  Imported by the generated shards. *)
 From ZV.Common Require Import Base Run.
-From ZV.C12 Require Import Spec Model ModelDict.
+From ZV.C12 Require Import Spec Model ModelDict ModelEsa.
 Open Scope nat_scope.
 
 Definition alg_of (k : N) : alg :=
@@ -75,12 +75,58 @@ Definition ok_dict (t : list N) (sa_n : list N) (ranges : list range_call_t)
        | _ => false
        end) das.
 
+(* enhanced suffix arrays: what the accessors returned for k = 0 .. len (inclusive: one past the end) *)
+Definition eqb_onat (a : option nat) (b : option N) : bool :=
+  match a, b with
+  | Some x, Some y => N.eqb (N.of_nat x) y
+  | None, None => true
+  | _, _ => false
+  end.
+Fixpoint eqb_probes (a : list (option nat)) (b : list (option N)) : bool :=
+  match a, b with
+  | [], [] => true
+  | x :: a', y :: b' => eqb_onat x y && eqb_probes a' b'
+  | _, _ => false
+  end.
+(* algorithms::suffix_array::EnhancedSuffixArray: resolved algorithm, text, array of with_lcp, lcp_at probes,
+   array of with_bwt, BWT *)
+Definition ok_esa_alg (res : N) (t : list N) (sa1 : list N) (lcp_probes : list (option N))
+           (sa2 : list N) (bw : list N) : bool :=
+  let s1 := map N.to_nat sa1 in
+  let s2 := map N.to_nat sa2 in
+  match esa_with_lcp (fun _ => s1) (fun _ => alg_of res) t with
+  | Some e => eqb_lnat (esa_sa e) s1
+              && eqb_probes (map (esa_lcp_at e) (seq 0 (S (length s1)))) lcp_probes
+  | None => false
+  end
+  && let e2 := esa_with_bwt (fun _ => s2) (fun _ => alg_of res) t in
+     eqb_lnat (esa_sa e2) s2
+     && match esa_bwt e2 with Some b => eqb_ln b bw | None => false end.
+(* compression::suffix_array: compute_lcp, text, array (as read through suffix_at_rank), suffix_at_rank and
+   lcp_at probes for k = 0 .. len, text_len, len, is_empty *)
+Definition ok_esa_comp (with_lcp : bool) (t : list N) (sa : list N) (sa_probes lcp_probes : list (option N))
+           (tl len : N) (empty : bool) : bool :=
+  let s := map N.to_nat sa in
+  match cesa_build (fun _ => s) with_lcp t with
+  | Some e =>
+      eqb_probes (map (cesa_suffix_at_rank e) (seq 0 (S (length s)))) sa_probes
+      && eqb_probes (map (cesa_lcp_at e) (seq 0 (S (length s)))) lcp_probes
+      && N.eqb (N.of_nat (c_text_len e)) tl && N.eqb (N.of_nat (cesa_len e)) len
+      && Bool.eqb (cesa_is_empty e) empty
+  | None => false
+  end.
+
 Inductive case_t :=
 | Core (c : core_t)
-| Dict (t : list N) (sa : list N) (ranges : list range_call_t) (conts : list cont_call_t) (das : list da_call_t).
+| Dict (t : list N) (sa : list N) (ranges : list range_call_t) (conts : list cont_call_t) (das : list da_call_t)
+| EsaAlg (res : N) (t : list N) (sa1 : list N) (lcp_probes : list (option N)) (sa2 : list N) (bw : list N)
+| EsaComp (with_lcp : bool) (t : list N) (sa : list N) (sa_probes lcp_probes : list (option N))
+          (tl len : N) (empty : bool).
 
 Definition ok (c : case_t) : bool :=
   match c with
   | Core c => ok_core c
   | Dict t sa ranges conts das => ok_dict t sa ranges conts das
+  | EsaAlg res t sa1 lp sa2 bw => ok_esa_alg res t sa1 lp sa2 bw
+  | EsaComp wl t sa sp lp tl len empty => ok_esa_comp wl t sa sp lp tl len empty
   end.
